@@ -122,6 +122,30 @@ def h_func_beam(ctx, n, k):
     ctx.claim('argument_untouched', all(bool(ctx.all_eq(a, b)) for a, b in zip(A, A0)))
 
 
+def h_concrete_func_scales(ctx):
+    """Functional variant on rank-1 coefficient tensors with 3-5 coefficients per
+    mode (interior critical points) at overall scales 1e3 ... 1e-12: the modulus at
+    the returned point is the maximum over a fine grid of the cube (real code; the
+    root finder of higher-degree derivatives is not encodable)."""
+    rng = np.random.default_rng(5)
+    xs = np.linspace(-1., 1., 2001)
+    ok_cube, ok_max = True, True
+    for n in ([3, 3], [4, 3], [3, 5, 3]):
+        for scale in (1e3, 1., 1e-4, 1e-9, 1e-12):
+            A = [rng.normal(size=(1, k, 1)) for k in n]
+            A[0] = A[0] * scale
+            x = teneva.optima_func_tt_beam(A, 3)
+            ok_cube = ok_cube and x.shape == (len(n),) and bool(np.all(np.abs(x) <= 1 + 1e-12))
+            fx, fmax = 1., 1.
+            for G, xi in zip(A, x):
+                c = G[0, :, 0]
+                fx *= abs(np.polynomial.chebyshev.chebval(xi, c))
+                fmax *= np.max(np.abs(np.polynomial.chebyshev.chebval(xs, c)))
+            ok_max = ok_max and fx >= fmax * (1 - 1e-6)
+    ctx.claim('point_in_cube', bool(ok_cube))
+    ctx.claim('maximum_modulus_over_cube', bool(ok_max))
+
+
 def _nondet_index(ctx, tag, n):
     """A nondeterministically chosen multi-index (every choice explored by forking)."""
     if not is_sym(ctx):
@@ -243,6 +267,7 @@ def instances(tier):
                          ([2, 3], 2, 6, False), ([2, 2, 2], 1, 1, False), ([2, 2, 2], 1, 2, False)]):
         out.append({'func': 'h_beam', 'params': {'n': n, 'r': r, 'k': k, 'fixed_q': fq}, 'opts': G})
     out.append({'func': 'h_concrete_pruned', 'params': {}, 'opts': {'concrete_only': True}})
+    out.append({'func': 'h_concrete_func_scales', 'params': {}, 'opts': {'concrete_only': True}})
     out.append({'func': 'h_optima_tt_order', 'params': {'n': [2, 2], 'r': 1}, 'opts': {'symbolic_signs': False}})
     out.append({'func': 'h_optima_qtt_values', 'params': {'q': 1}, 'opts': {'symbolic_signs': False}})
     # functional variant, rank-1 coefficient tensors with two Chebyshev coefficients per mode
